@@ -70,7 +70,9 @@ Event ==
   \/ Is("id_chosen") /\ CanStart(store) /\ RunChoose(p) /\ inv'[p].k = Ev.k /\ Consume
   \/ Is("slot_removed") /\ inv[p].pc = "effects" /\ Effs[inv[p].e] = "wipe" /\ RunEffect(p) /\ Consume
   \/ Is("slot_created") /\ inv[p].pc = "effects" /\ Effs[inv[p].e] = "mkdir" /\ RunEffect(p) /\ Consume
-  \/ Is("planned") /\ cpfile = "ok" /\ RunReadRepo(p) /\ Consume
+  \* (what the run is about to cover is remembered until it exits: its result document must list exactly these targets)
+  \/ Is("planned") /\ cpfile = "ok" /\ RunReadRepo(p)
+                   /\ view' = [view EXCEPT ![p] = [k |-> "ran", targets |-> AffectedNow]] /\ l' = l + 1 /\ UNCHANGED doomed
   \/ Is("executed") /\ inv[p].pc = "effects" /\ Effs[inv[p].e] = "logs" /\ RunEffect(p) /\ Consume
   \/ Is("result_stored") /\ inv[p].pc = "effects" /\ Effs[inv[p].e] = "result" /\ RunEffect(p) /\ Consume
   \/ Is("ptr_renamed") /\ inv[p].pc = "effects" /\ Effs[inv[p].e] = "ptrwrite" /\ RunEffect(p) /\ Consume
@@ -89,9 +91,11 @@ Event ==
   \/ Is("answered") /\ view[p] = (IF Ev.ok THEN [k |-> "ana", set |-> Ev.checkpointed, targets |-> { Ev.targets[i] : i \in DOMAIN Ev.targets }]
                                              ELSE [k |-> "ana_err"])
                     /\ Analyze(p) /\ view' = [view EXCEPT ![p] = NoView] /\ l' = l + 1 /\ UNCHANGED doomed
-  \/ Is("reaped") /\ inv[p] = Idle /\ UNCHANGED vars /\ Consume
+  \/ Is("reaped") /\ inv[p] = Idle /\ UNCHANGED vars /\ view' = [view EXCEPT ![p] = NoView] /\ l' = l + 1 /\ UNCHANGED doomed
   \* exit: whoever got the lock has finished (silent Finish); whoever did not has lost (silent TryLock) with a lock error
-  \/ Is("exit") /\ inv[p] = Idle /\ UNCHANGED vars /\ Consume
+  \/ Is("exit") /\ inv[p] = Idle /\ UNCHANGED vars
+                /\ (("ran" \in DOMAIN Ev /\ view[p].k = "ran") => view[p].targets = { Ev.ran[i] : i \in DOMAIN Ev.ran })
+                /\ view' = [view EXCEPT ![p] = NoView] /\ l' = l + 1 /\ UNCHANGED doomed
 Die(p) == /\ p \in doomed /\ inv[p] # Idle
           /\ IF inv[p].pc \in PastLock THEN Crash(p)
              ELSE inv' = [inv EXCEPT ![p] = Idle] /\ UNCHANGED <<repo, store, cpfile, holder, nruns, nedits, actor, obs>>
